@@ -72,6 +72,13 @@ Proof.
   destruct (v_qops v); [reflexivity|]. apply IH.
 Qed.
 
+Definition ev_call (e : event) : nat :=
+  match e with
+  | EStartExecute c _ _ | EStartWait c _ _ | EStartSync c _ _ | EStartKill c _ _ _ | EKillQueue c _ _ _
+  | EAddDrain c _ _ _ | ERemoveDrain c _ _ _ | EStartTerminate c _ _ | ERegister c _ _ _ _ _ _ | ETick c _
+  | EEnter c _ | ETimer c _ | ECancel c => c
+  end.
+
 Section Frame.
   Variable P : state -> Prop.
 
@@ -267,8 +274,16 @@ Section Frame.
   Local Hint Resolve fr_enter : fr.
 
   (* ---- the RPC sections of Steps.v: further primitive updates ---------------------------- *)
-  Hypothesis HP_emit : forall s o, P s -> P (emit o s).
-  Hypothesis HP_setcall : forall s c p, P s -> P (set_call c p s).
+  (* [c0] is the call the event belongs to: it is the only call whose program
+     counter is set and (apart from the selector/learner calls and the returns
+     of TerminateWorkers calls) the only one observations are tagged with *)
+  Variable c0 : nat.
+  Hypothesis HP_emit_msg : forall s o st d, P s -> P (emit (OMsg c0 o st d) s).
+  Hypothesis HP_emit_ret : forall s code, P s -> P (emit (ORet c0 code) s).
+  Hypothesis HP_emit_sync : forall s d z, P s -> P (emit (OSync c0 d z) s).
+  Hypothesis HP_emit_select : forall s, P s -> P (emit (OGhost GSelect) s).
+  Hypothesis HP_emit_selab : forall s, P s -> P (emit (OGhost GSelAbandoned) s).
+  Hypothesis HP_setcall : forall s p, P s -> P (set_call c0 p s).
   Hypothesis HP_O_attach : forall s o, P s -> P (upd_op o (fun y => y <| o_cleanup := None |> <| o_waiters ::= S |>) s).
   Hypothesis HP_O_waiters : forall s o n, P s -> P (upd_op o (fun y => y <| o_waiters := n |>) s).
   Hypothesis HP_K_arm : forall s w z, P s -> P (upd_worker w (fun k => k <| k_cleanup := Some z |>) s).
@@ -289,50 +304,50 @@ Section Frame.
   Hypothesis HP_Q_deldrain : forall s k p,
     P s -> P (upd_scq k (fun q => q <| q_drains ::= filter (fun p' => negb (pattern_eqb p p')) |> <| q_undrain ::= S |>) s).
 
-  Local Hint Resolve HP_emit HP_setcall HP_O_attach HP_O_waiters HP_K_arm HP_T_retrycount HP_newtask_exec HP_infl_set
+  Local Hint Resolve HP_emit_msg HP_emit_ret HP_emit_sync HP_emit_select HP_emit_selab HP_setcall HP_O_attach HP_O_waiters HP_K_arm HP_T_retrycount HP_newtask_exec HP_infl_set
     HP_pq_addsc HP_newscq HP_newpq HP_Q_newworker HP_Q_adddrain HP_Q_deldrain : fr.
 
-  Lemma fr_stream_iter : forall c o s, P s -> P (stream_iter c o s).
+  Lemma fr_stream_iter : forall o s, P s -> P (stream_iter c0 o s).
   Proof. intros. unfold stream_iter. fr. Qed.
   Local Hint Resolve fr_stream_iter : fr.
 
-  Lemma fr_wait_execution_begin : forall c o s, P s -> P (wait_execution_begin c o s).
+  Lemma fr_wait_execution_begin : forall o s, P s -> P (wait_execution_begin c0 o s).
   Proof. intros. unfold wait_execution_begin. fr. Qed.
   Local Hint Resolve fr_wait_execution_begin : fr.
 
-  Lemma fr_stream_return : forall c o code s, P s -> P (stream_return c o code s).
+  Lemma fr_stream_return : forall o code s, P s -> P (stream_return c0 o code s).
   Proof. intros. unfold stream_return. fr. Qed.
   Local Hint Resolve fr_stream_return : fr.
 
-  Lemma fr_ret : forall c code s, P s -> P (ret c code s).
+  Lemma fr_ret : forall code s, P s -> P (ret c0 code s).
   Proof. intros. unfold ret. fr. Qed.
   Local Hint Resolve fr_ret : fr.
 
-  Lemma fr_exec_start : forall c a s, P s -> P (exec_start c a s).
+  Lemma fr_exec_start : forall a s, P s -> P (exec_start c0 a s).
   Proof. intros. unfold exec_start, new_operation. fr. Qed.
   Local Hint Resolve fr_exec_start : fr.
 
-  Lemma fr_finish_sync : forall c w s, P s -> P (finish_sync c w s).
+  Lemma fr_finish_sync : forall w s, P s -> P (finish_sync c0 w s).
   Proof. intros. unfold finish_sync. fr. Qed.
   Local Hint Resolve fr_finish_sync : fr.
 
-  Lemma fr_sync_return_exec : forall c w s, P s -> P (sync_return_exec c w s).
+  Lemma fr_sync_return_exec : forall w s, P s -> P (sync_return_exec c0 w s).
   Proof. intros. unfold sync_return_exec. fr. Qed.
-  Lemma fr_sync_return_idle : forall c w s, P s -> P (sync_return_idle c w s).
+  Lemma fr_sync_return_idle : forall w s, P s -> P (sync_return_idle c0 w s).
   Proof. intros. unfold sync_return_idle. fr. Qed.
-  Lemma fr_sync_return_err : forall c w code s, P s -> P (sync_return_err c w code s).
+  Lemma fr_sync_return_err : forall w code s, P s -> P (sync_return_err c0 w code s).
   Proof. intros. unfold sync_return_err. fr. Qed.
   Local Hint Resolve fr_sync_return_exec fr_sync_return_idle fr_sync_return_err : fr.
 
-  Lemma fr_sync_loop : forall c w s, P s -> P (sync_loop c w s).
+  Lemma fr_sync_loop : forall w s, P s -> P (sync_loop c0 w s).
   Proof. intros. unfold sync_loop. fr. Qed.
   Local Hint Resolve fr_sync_loop : fr.
 
-  Lemma fr_get_next_task : forall c w bl pr s, P s -> P (get_next_task c w bl pr s).
+  Lemma fr_get_next_task : forall w bl pr s, P s -> P (get_next_task c0 w bl pr s).
   Proof. intros. unfold get_next_task. fr. Qed.
   Local Hint Resolve fr_get_next_task : fr.
 
-  Lemma fr_get_current_or_next : forall c w bl pr s, P s -> P (get_current_or_next c w bl pr s).
+  Lemma fr_get_current_or_next : forall w bl pr s, P s -> P (get_current_or_next c0 w bl pr s).
   Proof. intros. unfold get_current_or_next. fr. Qed.
   Local Hint Resolve fr_get_current_or_next : fr.
 
@@ -342,17 +357,16 @@ Section Frame.
   Proof. intros. unfold add_pq. fr. Qed.
   Local Hint Resolve fr_add_scq fr_add_pq : fr.
 
-  Lemma fr_sync_start : forall c a s, P s -> P (sync_start c a s).
+  Lemma fr_sync_start : forall a s, P s -> P (sync_start c0 a s).
   Proof. intros. unfold sync_start. fr. Qed.
   Local Hint Resolve fr_sync_start : fr.
 
-  Lemma fr_kill_lookup : forall c n code s, P s -> P (kill_lookup c n code s).
+  Lemma fr_kill_lookup : forall n code s, P s -> P (kill_lookup c0 n code s).
   Proof. intros. unfold kill_lookup. fr. Qed.
   Local Hint Resolve fr_kill_lookup : fr.
 
-  Lemma fr_auto_returns : forall s, P s -> P (auto_returns s).
-  Proof. intros. unfold auto_returns. fr. Qed.
-  Local Hint Resolve fr_auto_returns : fr.
+  Lemma fr_auto_returns : (forall s c code, P s -> P (ret c code s)) -> forall s, P s -> P (auto_returns s).
+  Proof. intros Hret s H. unfold auto_returns. fr. Qed.
 
   Lemma fr_terminate_fold : forall p l s waits,
     P s -> P (fst (fold_left (fun (acc : state * list (nat * nat)) w =>
@@ -371,9 +385,9 @@ Section Frame.
     intros [s1 w1] w H1. cbn [fst] in *. fr.
   Qed.
 
-  Lemma fr_step_core : forall e s, P s -> P (step_core e s).
+  Lemma fr_step_core : forall e s, ev_call e = c0 -> P s -> P (step_core e s).
   Proof.
-    intros e s H. destruct e; unfold step_core; try solve [fr].
+    intros e s Hc H. destruct e; cbn [ev_call] in Hc; (match goal with Hx : ?c = c0 |- _ => subst c end); unfold step_core; try solve [fr].
     (* EStartTerminate *)
     cbv zeta.
     match goal with |- P (match ?x with _ => _ end) => rewrite (surjective_pairing x) end.
@@ -383,10 +397,11 @@ Section Frame.
   Hypothesis HP_hints : forall s h, P s -> P (s <| s_hints := h |>).
   Hypothesis HP_out : forall s, P s -> P (s <| s_out := [] |>).
 
-  Lemma fr_step : forall s eh, P s -> P (fst (step s eh)).
+  Lemma fr_step : (forall s c code, P s -> P (ret c code s)) ->
+    forall s eh, ev_call (fst eh) = c0 -> P s -> P (fst (step s eh)).
   Proof.
-    intros s eh H. unfold step. cbn [fst]. apply HP_hints. apply HP_out. apply fr_auto_returns.
-    apply fr_step_core. apply HP_out. apply HP_hints. exact H.
+    intros Hret s eh Hc H. unfold step. cbn [fst]. apply HP_hints. apply HP_out. apply fr_auto_returns; [exact Hret|].
+    apply fr_step_core; [exact Hc|]. apply HP_out. apply HP_hints. exact H.
   Qed.
 End Frame.
 
@@ -410,7 +425,7 @@ Ltac fr_lemmas P :=
   | apply (fr_exec_start P) | apply (fr_finish_sync P) | apply (fr_sync_return_exec P) | apply (fr_sync_return_idle P)
   | apply (fr_sync_return_err P) | apply (fr_sync_loop P) | apply (fr_get_next_task P) | apply (fr_get_current_or_next P)
   | apply (fr_add_scq P) | apply (fr_add_pq P) | apply (fr_sync_start P) | apply (fr_kill_lookup P)
-  | apply (fr_auto_returns P) | apply (fr_terminate_fold P) | apply (fr_step_core P) ].
+  | apply (fr_terminate_fold P) ].
 
 Ltac is_prim_head f :=
   lazymatch f with
@@ -430,7 +445,9 @@ Ltac fr_prim P tac :=
 
 Ltac fr_go P tac :=
   cbv beta iota zeta; cbn [fst snd];
-  repeat first [ assumption | fr_fold | fr_destruct_head | (fr_lemmas P; [ tac .. | ]) | fr_prim P tac ].
+  repeat first [ assumption | fr_fold | fr_destruct_head
+               | (lazymatch goal with |- ?Q _ => fr_lemmas Q end; [ tac .. | ])
+               | lazymatch goal with |- ?Q _ => fr_prim Q tac end ].
 
 (* primitive updates never touch a record field they do not name *)
 Ltac prim_unfold :=
